@@ -22,6 +22,7 @@ import (
 	"time"
 
 	"github.com/bolkedebruin/rdpgw/cmd/rdpgw/protocol"
+	"github.com/bolkedebruin/rdpgw/cmd/rdpgw/security"
 	"github.com/bolkedebruin/rdpgw/cmd/rdpgw/web"
 )
 
@@ -82,11 +83,16 @@ func newL2Server(tokenAuth bool, sendBuf int) *l2server {
 			return ok, nil
 		}
 	}
+	// under token authentication the host check is the real security.CheckSession, built ONCE for the gateway
+	// as main() builds it (one closure shared by every tunnel), around a host check that allows everything;
+	// address verification is off (the scripted cookies carry no address)
+	security.VerifyClientIP = false
+	session := security.CheckSession(func(ctx context.Context, h string) (bool, error) { return true, nil })
 	gw.CheckHost = func(ctx context.Context, h string) (bool, error) {
 		t := tun(ctx)
 		ok := true
 		if tokenAuth {
-			ok = t.TargetServer == h
+			ok, _ = session(ctx, h)
 		}
 		add(t, "AH:"+hx([]byte(h))+":"+b01(ok)+":u="+hx([]byte(t.User.UserName())))
 		return ok, nil
